@@ -14,6 +14,15 @@ CLAIMED = {
     ),
 }
 
+CLAIMED["C02"] = dict(
+    text="Bounded symbolic checking of the real ETDRK1-4 constructors and step functions: with dt and a complex symbol per mode symbolic, exp and the contour divisions Ackermannised (staged), "
+    "every quotient the code forms has the Cox-Matthews numerator/denominator, every contour point is r*rho_j + lambda*dt, every stored coefficient is dt times the COMPLEX mean; "
+    "the integrands equal the phi-function combinations (algebra); step_fourier with an opaque nonlinear term and free coefficient arrays equals the Cox-Matthews stages (staged congruence).",
+    note="Quadrature error of the M-point mean vs the exact phi function (and hence the convergence order) is outside the claim; real arithmetic; M in {8,16,32}; trusted: tracer, interpreter, z3; replay compares the real constructor with 50-digit mpmath phi-functions.",
+    technique="symbolic execution of the constructor/step jaxprs with staged Ackermannisation of exp, division and the opaque nonlinear term; z3 QF_NRA",
+    ref="5/C02",
+)
+
 NOT_APPLICABLE = {
     "C19": "floating-point overflow/precision faithfulness of XLA's exp/complex-division kernels for |lambda dt| up to 1e15 and f32-vs-f64 closeness: needs a bit-level model of XLA CPU kernels and exp in QF_FP, which is not available offline; real-arithmetic fragments are discharged under C02/C03 instead (DESIGN.md section 9)",
 }
